@@ -92,6 +92,87 @@ Theorem record_canonical_eq_subst a b c :
   m_record_canonical_cmp a b = Eq -> m_record_canonical_cmp a c = m_record_canonical_cmp b c.
 Proof. apply record_canonical_good. Qed.
 
+(* ---- RecordHeader: Ord is a total preorder whose equivalence is Eq *)
+
+Lemma good_hdr_field f : good (hdr_field_cmp f).
+Proof.
+  unfold hdr_field_cmp. destruct (f =? 1).
+  - apply (good_name h_owner).
+  - apply (good_N (hdr_num f)).
+Qed.
+
+Lemma good_eq_const {A} : good (fun _ _ : A => Eq).
+Proof. repeat split; intros; congruence. Qed.
+
+Lemma good_hdr_chain fs : good (hdr_chain fs).
+Proof.
+  induction fs as [|f fs IH]; cbn [hdr_chain]; [apply good_eq_const|].
+  apply (good_then (hdr_field_cmp f) (hdr_chain fs)); [apply good_hdr_field|exact IH].
+Qed.
+
+Theorem header_cmp_trans a b c o : m_header_cmp a b = o -> m_header_cmp b c = o -> m_header_cmp a c = o.
+Proof. apply good_hdr_chain. Qed.
+
+Lemma hdr_field_cmp_antisym f a b : hdr_field_cmp f b a = CompOpp (hdr_field_cmp f a b).
+Proof. unfold hdr_field_cmp. destruct (f =? 1); [apply name_cmp_antisym|apply N.compare_antisym]. Qed.
+
+Theorem header_cmp_antisym a b : m_header_cmp b a = CompOpp (m_header_cmp a b).
+Proof.
+  unfold m_header_cmp. induction header_cmp_fields as [|f fs IH]; cbn [hdr_chain]; [reflexivity|].
+  rewrite then_cmp_opp, <- hdr_field_cmp_antisym, <- IH. reflexivity.
+Qed.
+
+Lemma hdr_field_cmp_eq f a b : hdr_field_cmp f a b = Eq <-> hdr_field_eq f a b = true.
+Proof.
+  unfold hdr_field_cmp, hdr_field_eq. destruct (f =? 1).
+  - apply name_cmp_eq_iff.
+  - rewrite N.compare_eq_iff, N.eqb_eq. reflexivity.
+Qed.
+
+Lemma hdr_chain_eq fs a b : hdr_chain fs a b = Eq <-> forallb (fun f => hdr_field_eq f a b) fs = true.
+Proof.
+  induction fs as [|f fs IH]; cbn [hdr_chain forallb]; [split; reflexivity|].
+  rewrite andb_true_iff, <- IH, <- hdr_field_cmp_eq.
+  destruct (hdr_field_cmp f a b); cbn [then_cmp]; split; intros H; try discriminate; try tauto.
+Qed.
+
+(* Ord and Eq of RecordHeader look at the same fields (T1), hence agree *)
+Theorem header_cmp_eq_iff a b : m_header_cmp a b = Eq <-> m_header_eqb a b = true.
+Proof.
+  unfold m_header_cmp, m_header_eqb.
+  replace header_eq_fields with header_cmp_fields by reflexivity. apply hdr_chain_eq.
+Qed.
+
+(* ParsedRecord ==: an equivalence; it compares the RDATA octets as they stand
+   in the message, so the same record with a differently compressed name in
+   its RDATA is a different ParsedRecord (by design: see its to_record) *)
+Theorem parsed_record_eq_equiv :
+  (forall a d, m_parsed_record_eq a d a d = true) /\
+  (forall a d b e, m_parsed_record_eq a d b e = m_parsed_record_eq b e a d) /\
+  (forall a d b e c f, m_parsed_record_eq a d b e = true -> m_parsed_record_eq b e c f = true ->
+     m_parsed_record_eq a d c f = true).
+Proof.
+  assert (R : forall a, m_header_cmp a a = Eq).
+  { intros a. unfold m_header_cmp. induction header_cmp_fields as [|f fs IH]; cbn [hdr_chain]; [reflexivity|].
+    rewrite IH. unfold hdr_field_cmp. destruct (f =? 1); [rewrite name_cmp_refl|rewrite N.compare_refl]; reflexivity. }
+  split; [|split].
+  - intros a d. unfold m_parsed_record_eq. apply andb_true_iff. split; [apply header_cmp_eq_iff, R|apply bytes_eqb_refl].
+  - intros a d b e. unfold m_parsed_record_eq. f_equal.
+    + apply eq_true_iff_eq. rewrite <- !header_cmp_eq_iff, (header_cmp_antisym a b).
+      destruct (m_header_cmp a b); cbn; split; congruence.
+    + apply eq_true_iff_eq. rewrite !bytes_eqb_eq. split; auto.
+  - intros a d b e c f H1 H2. unfold m_parsed_record_eq in *.
+    apply andb_true_iff in H1 as [H1 D1]. apply andb_true_iff in H2 as [H2 D2].
+    apply andb_true_iff. split.
+    + apply header_cmp_eq_iff. eapply header_cmp_trans; apply header_cmp_eq_iff; eassumption.
+    + apply bytes_eqb_eq in D1, D2. apply bytes_eqb_eq. congruence.
+Qed.
+
+Example parsed_record_eq_is_octetwise :
+  let h := mkHdr [[97]] 15 1 0 5 in
+  m_parsed_record_eq h [0;10;1;98;0] h [0;10;192;12] = false.
+Proof. vm_compute. reflexivity. Qed.
+
 (* the same for CharStr's and a name's canonical order inside record data:
    every field-wise canonical_cmp that equals the octet order of an encoding
    inherits the order laws from lex_cmp (schema_cmp_bytewise) *)
